@@ -81,11 +81,22 @@ try:
     nres = lambda a, b: {"res": {"prod": a * b, "sum": a + b}, "pair": [a, (b, {"k": a + 1})]}
     call("nested-results", nres, nres, [4, 9])
     # keyword arguments are refused
-    try:
-        snark(lambda x, k=1: x)(3, k=2)
-        bad("kwargs-accepted", "a keyword argument was accepted by a wrapped call")
-    except (RuntimeError, TypeError, ValueError):
-        pass
+    for args, kw in (((3,), dict(k=2)), ((6, [7, 8]), dict(k=2)), ((True, 2.5), dict(k=1)), ((), dict(x=4))):
+        n0, c0 = len(R.pubs), len(R.cons)
+        try:
+            snark(lambda *x, k=1: x[0] if x else k)(*args, **kw)
+            bad("kwargs-accepted", "a keyword argument was accepted by a wrapped call")
+        except (RuntimeError, TypeError, ValueError):
+            pass
+        # a refused call has no effect: nothing became public, nothing was emitted
+        if (len(R.pubs), len(R.cons)) != (n0, c0):
+            bad("refused-call-left-public-inputs", "a wrapped call refused for its keyword arguments left %d public value(s) and %d constraint(s) behind (arguments %r)" % (len(R.pubs) - n0, len(R.cons) - c0, args))
+            break
+    # a call after the refused ones publishes exactly its own arguments and result
+    n0 = len(R.pubs)
+    snark(lambda x, y: x * y)(5, 4)
+    if list(R.pubs[n0:]) != [5, 4, 20]:
+        bad("public-vector:after-refused-calls", "after refused calls a wrapped call published %r, expected [5, 4, 20]" % (list(R.pubs[n0:]),))
     # every recorded constraint holds on the recorded witness (each output is tied to its wire)
     ev = lambda lc: sum(c * w(k) for k, c in lc.d.items()) % P
     for i, (a, b, c) in enumerate(R.cons):
